@@ -85,4 +85,25 @@ CHECKS = {
   'note': COMMON_NOTE + 'Queue semantics under overflow are C04/C06; the full-buffer stream is checked against the contents-at-call-time oracle rather than the (unbounded-queue) model.',
   'technique': 'Coq proof (queue-snapshot invariant over histories; permutation of references) + differential correspondence through handles',
  },
+ 'C13': {
+  'text': 'Partial. Proved for the sequential projection of the appender (one call at a time; every history of clock advances, writes, start/stop cycles, pre-existing files): c13_seq_exactly_once_and_never_truncates (multiset accounting: nothing lost, nothing twice, nothing in two files; every file only grows by appends), c13_write_lands, c13_seq_new_interval, c13_not_before_name. The clauses over all interleavings of concurrent writers with interval boundaries are NOT proved (no small-step concurrent model of the atomic pointers / deferred close yet); they are decided by the harness: 1-16 writers across 2-4 real 1 s/2 s boundaries checked for whole / exactly-once / one-file / not-before-name.',
+  'note': COMMON_NOTE + 'time.Now cannot be injected: the harness uses real boundaries, replays the observed history (operation @ second) on the model and discards scenarios in which a write straddled a second boundary. Runtime residue: scheduling against real time, O_APPEND atomicity, the deferred-close window (a writer suspended across two rotations).',
+  'technique': 'Coq proof (invariant + permutation accounting over sequential histories) + real-time differential correspondence + concurrent runs checked against the stated conclusions',
+ },
+ 'C16': {
+  'text': 'Full on the (abstract) lifecycle model: for every operation sequence c16_inv_reachable (bound tags/handles always point at the running configuration; nothing is bound without a live configuration), c16_log_goes_somewhere (a log/write lands in the live configuration\'s sink, else the console - the model has no panic/block outcome), c16_second_refresh_rejected_and_harmless, c16_destroy_idempotent, c16_registration_guard, c16_destroy_then_refresh_routes, c16_failed_refresh_leaves_no_configuration. '
+          'Correspondence: ALL sequences up to length 4 (quick) / 6 (thorough) over the 10-letter alphabet plus random long ones against the real package state, every call under recover and a watchdog.',
+  'note': COMMON_NOTE + 'The model abstracts a configuration to an identifier; that an invalid configuration fails early/late as assumed is validated by the harness configurations (missing appenders section; unconfigured handle name with a second handle already bound).',
+  'technique': 'Coq proof (invariant by induction over operation lists) + exhaustive bounded sequence correspondence',
+ },
+ 'C19': {
+  'text': 'Partial. Proved on the sequential model with a create-fault oracle: c19_keeps_current_file, c19_nothing_lost (same accounting as C13 under any outage placement), c19_write_during_outage_lands, c19_no_retry_within_interval, c19_retry_next_boundary, c19_fds_bounded. Concurrent writers during an outage and the failing-sink cases (missing directory, closed/unlinked file, failing console writer) are decided by the harness: real directory rename/restore across 1 s boundaries, every call under a watchdog.',
+  'note': COMMON_NOTE + 'Assumed: an open descriptor keeps working while its directory is renamed; observed on this file system.',
+  'technique': 'Coq proof (sequential fault-oracle model) + real outage scenarios replayed on the model + watchdog exploration of failing sinks',
+ },
+ 'C20': {
+  'text': 'Partial. c20_no_user_buffer / c20_write_through are proved on a two-level sink model (the property is the absence of a user-space buffer, so the theorems are near-immediate); the weight is the harness: a child process logs through a synchronous logger (file, rolling-file crossing 1 s boundaries, console; both layouts; 1-4 goroutines), acknowledges every returned call on a pipe and is killed with SIGKILL after k acknowledgements or calls os.Exit right after call k; every acknowledged id must be a complete line in the target.',
+  'note': COMMON_NOTE + 'Process death, not power loss: the kernel keeps written-but-unsynced data.',
+  'technique': 'Coq proof (write-through invariant of a two-level sink) + crash-point exploration with a killed child process',
+ },
 }
